@@ -13,7 +13,7 @@ reads on the cached sessions equal the reads on the plain session; key collision
 import zlib
 
 import common
-from props import c18_cachehist, c18_cachekey, c18_consolidate
+from props import c18_cachehist, c18_cachekey, c18_consolidate, c18_sessions
 from props import clientsim as cs
 
 LEVEL = "proof"
@@ -54,6 +54,7 @@ def explore(ctx, tier, search=False):
     c18_cachekey.explore(ctx, "thorough" if search else tier)
     c18_cachehist.explore(ctx, "thorough" if search else tier)
     c18_consolidate.explore(ctx, "thorough" if search else tier)
+    c18_sessions.explore(ctx, "thorough" if search else tier)
 
 
 def run(ctx):
@@ -87,6 +88,8 @@ def replay(payload):
     c = f["case"]
     if "history" in c:
         return c18_cachehist.replay_case(c)
+    if "process" in c:
+        return c18_sessions.replay_case(c)
     if "collection" in c:
         return c18_consolidate.replay_case(c)
     if "ops" not in c:
